@@ -32,8 +32,6 @@ from sx.core import SBytes, SInt, SBool, s_and, s_or, s_not
 
 _core.UTF8_CLASS_DECODE = True    # peer text: fork on UTF-8 structure, sample the characters (see sx/core.py)
 
-from sx import hook as _hook      # noqa: E402
-_hook.import_tree('exabgp.bgp')   # every decoder module the package ships, in the symbolic worker AND the replay interpreter (same registries)
 from checks import c15 as R       # registry-driven plans / shapes (shared with C15)   # noqa: E402
 from kits import apievents as A   # noqa: E402
 from kits import session as S     # noqa: E402
@@ -73,8 +71,8 @@ ASSUMPTIONS = [
     'symbolic phase: Attribute.unpack / NLRI.unpack_nlri / Open.unpack_message / Notification(.data) / RouteRefresh / Operational.unpack_message '
     'called directly on symbolic octets; the surrounding message (ORIGIN, AS_PATH, NEXT_HOP or MP_REACH/MP_UNREACH framing) is concrete and '
     'decoded by Message.unpack on each witness; a witness whose decoded object does not reach the event is reported (C13:harness:*)',
-    'every module under exabgp.bgp is imported (the registries are those of the whole package: a superset of what the daemon imports, '
-    'e.g. the link-bandwidth extended community module is never imported by the daemon)',
+    'registries are the PRODUCT\'s: checks/c15.py removes from the symbolic worker\'s registries the classes of modules which only the import '
+    'hook imports (today community/extended/bandwidth.py), so worker and clean interpreter build the same plans',
     'SBytes.decode(utf-8/ascii) forks on the UTF-8 structure of the octets (complete partition) and samples the characters',
     'host name / pid / time in the envelope are whatever this machine returns',
     'CPython contract used by the oneline() proof: repr() escapes exactly the characters for which str.isprintable() is false, with ASCII output',
@@ -360,10 +358,6 @@ def h_attr(ctx, plans):
         needles = expected_attr_strings(code, kind, value) if out[0] == 'decoded' else ()
         decode_and_render(ctx, kind, w, body, present, needles=needles)
     return (name,) + out
-
-
-def sh_unknown(lengths):
-    return lambda ctx: R.Shape(sym(ctx, 'p', ctx.pick('L', lengths)))
 
 
 def h_unknown_attr(ctx, th):
